@@ -396,6 +396,30 @@ fn exec(sc: &Scenario, ctx: &mut Ctx) -> Vec<Violation> {
             }
         }
     }
+    if sc.i("enumerate_cuts") == 2 {
+        // every 3-cut composition of a very short input
+        let n = input.len();
+        ctx.stats.hit("arm.inputs_with_all_3cut_compositions");
+        for a in 1..n {
+            for b in (a + 1)..n {
+                for c in (b + 1)..n {
+                    let ops3 = [
+                        OP_WRITE_N, a as u64, OP_WRITE_N, (b - a) as u64, OP_WRITE_N, (c - b) as u64,
+                        OP_WRITE_ALL, 0, OP_FINISH, 0,
+                    ];
+                    let (v, o, _) = one_history(sc, &ops3, &oneshot);
+                    ctx.stats.eval(
+                        sc.hash() ^ ((a as u64) << 20) ^ ((b as u64) << 40) ^ ((c as u64) << 52),
+                        true,
+                        o.events.len() as u64,
+                    );
+                    if let Some(v) = v {
+                        return vec![v];
+                    }
+                }
+            }
+        }
+    }
     Vec::new()
 }
 
@@ -404,6 +428,8 @@ fn gen_with_enum(t: &mut Tape, tier: Tier) -> Scenario {
     let every = if tier == Tier::Thorough { 40 } else { 400 };
     if sc.b("input").len() <= 160 && !sc.b("input").is_empty() && t.below(every) == 0 {
         sc.set_i("enumerate_cuts", 1);
+    } else if tier == Tier::Thorough && sc.b("input").len() <= 44 && sc.b("input").len() >= 4 && t.below(60) == 0 {
+        sc.set_i("enumerate_cuts", 2);
     }
     sc
 }
@@ -411,7 +437,7 @@ fn gen_with_enum(t: &mut Tape, tier: Tier) -> Scenario {
 pub static C05: SimpleProp = SimpleProp {
     id: "C05",
     level: "exploration",
-    rule: "one evaluation = one history: a byte string (valid stream of any shape incl. adversarially trained 9-12-byte symbols; truncated, bit-flipped, spliced, extended; random bytes) x decode option (3 modes, supplied size true/±1/0/none, memlimit) x a composition into write calls (single bytes, fixed k, random, sizes around 20, cuts placed inside the header / the 5-byte preamble / the longest symbol from the reference trace; empty writes, flush and get_output interleaved) then finish; the Stream verdict and bytes must equal lzma_decompress_with_options on the concatenation. For a sample of inputs <= 160 bytes every 1-cut and every 2-cut composition is enumerated. Non-trivial = history has >= 2 write calls; distinct by scenario hash",
+    rule: "one evaluation = one history: a byte string (valid stream of any shape incl. adversarially trained 9-12-byte symbols; truncated, bit-flipped, spliced, extended; random bytes) x decode option (3 modes, supplied size true/±1/0/none, memlimit) x a composition into write calls (single bytes, fixed k, random, sizes around 20, cuts placed inside the header / the 5-byte preamble / the longest symbol from the reference trace; empty writes, flush and get_output interleaved) then finish; the Stream verdict and bytes must equal lzma_decompress_with_options on the concatenation. For a sample of inputs <= 160 bytes every 1-cut and every 2-cut composition is enumerated (thorough: also every 3-cut composition of inputs <= 44 bytes); for a third of the adversarial streams every cut inside the longest symbol is scanned. Non-trivial = history has >= 2 write calls; distinct by scenario hash",
     runs_quick: 120_000,
     runs_thorough: 8_000_000,
     both_profiles: false,
